@@ -60,6 +60,26 @@ def permute_table(code, which, rng):
     return replace_code(code, **kw)
 
 
+def permute_cellvars(code, rng):
+    """permute co_cellvars and renumber the cell operands (free variable operands keep their offset)"""
+    if not simple(code):
+        return None
+    cells = list(code.co_cellvars)
+    n = len(cells)
+    if n < 2 or n + len(code.co_freevars) > 256:
+        return None
+    perm = list(range(n))
+    rng.shuffle(perm)
+    if perm == list(range(n)):
+        perm = perm[1:] + perm[:1]
+    inv = {old: new for new, old in enumerate(perm)}
+    newcode = bytearray(code.co_code)
+    for i, (op, a) in enumerate(units(code)):
+        if op in dis.hasfree and a < n:
+            newcode[2 * i + 1] = inv[a]
+    return replace_code(code, co_cellvars=tuple(cells[old] for old in perm), co_code=bytes(newcode))
+
+
 def pad_table(code, which, rng):
     table = getattr(code, which)
     extra = {"co_consts": (987654321, "unreferenced pad", (1, 2)), "co_names": ("pad_name_x", "pad_name_y"),
